@@ -27,6 +27,7 @@ type Solver struct {
 	in       io.WriteCloser
 	out      *bufio.Reader
 	lines    chan string
+	wq       chan string
 	argv     []string
 	Restarts int
 	Dead     bool
@@ -72,6 +73,21 @@ func (s *Solver) start() error {
 	}
 	s.cmd, s.in = cmd, in
 	s.out = bufio.NewReaderSize(outp, 1<<16)
+	// writes go through a queue drained by a goroutine: a solver that stops reading
+	// its input (busy, or stuck) can then never block the engine outside readLine,
+	// which is where the watchdog lives
+	wq := make(chan string, 1<<20)
+	s.wq = wq
+	go func() {
+		w := bufio.NewWriterSize(in, 1<<16)
+		for l := range wq {
+			w.WriteString(l)
+			w.WriteByte('\n')
+			if len(wq) == 0 {
+				w.Flush()
+			}
+		}
+	}()
 	lines := make(chan string, 64)
 	s.lines = lines
 	rd := s.out
@@ -101,6 +117,7 @@ func (s *Solver) start() error {
 
 // Restart kills the solver process and starts a fresh one (all assertions lost).
 func (s *Solver) Restart() {
+	close(s.wq)
 	s.in.Close()
 	s.cmd.Process.Kill()
 	go s.cmd.Wait()
@@ -115,11 +132,17 @@ func (s *Solver) send(line string) {
 	if s.Log != nil {
 		fmt.Fprintln(s.Log, line)
 	}
-	io.WriteString(s.in, line)
-	io.WriteString(s.in, "\n")
+	select {
+	case s.wq <- line:
+	default:
+		// queue full: the solver has not been reading for a very long time
+		s.Dead = true
+	}
 }
 
 func (s *Solver) Close() {
+	close(s.wq)
+	time.Sleep(10 * time.Millisecond)
 	s.in.Close()
 	done := make(chan struct{})
 	go func() { s.cmd.Wait(); close(done) }()
